@@ -345,8 +345,9 @@ func checkC06(t *Trial, ctx *Ctx) *Failure {
 				}
 			} else {
 				if hasD {
-					ctx.Discard("-d with an undefined distance (the statement is silent on whether it is listed)")
-					return nil
+					// "within distance D": an undefined distance is not within any D, the target is not listed
+					ctx.Probe("undefined_distance_with_max_dist", 1)
+					continue
 				}
 				e.undef[c.name] = true
 			}
